@@ -4,6 +4,8 @@ from mirq import ty_str
 from mirq.origin import Origins, show, walk, decisions, lit_truth
 from mirq.pat import match, find, strip_refs
 from rules.c10 import fold
+from mirq.paths import Paths, Unsupported, variant_of, show_fact, _norm_calls
+from mirq.canon import Canon
 
 PC = "embedded_graphics_core::pixelcolor::"
 RGBT = PC + "rgb_color::RgbColor"
@@ -73,8 +75,14 @@ def run(ctx, rep):
             continue
         if dst in gray and src in rgb:
             # rgb -> gray: Gray8::new(luma(Rgb888::from(other))).into()
-            m = match(ro, ("call", "*Into<U>>::into", "_", (("call", "*Gray8::new", "_", (("call", "*conversion::luma", "_", ("?c",)),)),)))
-            ok = m is not None and m["?c"][0] == "call" and m["?c"][1].endswith("::from") and m["?c"][3] == (("param", 1, "other"),)
+            ron = _norm_calls(ro)
+            m = match(ron, ("call", "*::from", "_", (("call", "*Gray8::new", "_", (("call", "*conversion::luma", "_", ("?c",)),)),)))
+            other = ("param", 1, "other")
+            src_ok = lambda c: (c[0] == "call" and c[1].endswith("::from") and c[3] == (other,)) or (src == "Rgb888" and c == other)
+            ok = m is not None and ("From<%sgray_color::Gray8>" % PC) in ron[1] and dst in ron[1] and src_ok(m["?c"])
+            if dst == "Gray8" and m is None:
+                m = match(ron, ("call", "*Gray8::new", "_", (("call", "*conversion::luma", "_", ("?c",)),)))
+                ok = m is not None and src_ok(m["?c"])
             ok = ok and (src == "Rgb888" or ("From<" + PC + "rgb_color::" + src + "> for " + PC + "rgb_color::Rgb888") in m["?c"][1])
             rep.check(ok, "R13.1", key, "rgb->gray must be Gray8::new(luma(Rgb888::from(c))).into(); found %s" % show(ro, maxd=6), at=f.span, fn=f.path)
             n_conv += 1
@@ -178,23 +186,30 @@ def run(ctx, rep):
         rep.check(v == want, "R13.4", "GRAY_50:" + name, "%s::GRAY_50 luma must be (MAX_LUMA+1)/2 = %d (On exactly for the upper half), found %r" % (name, want, v))
     # bool -> BinaryColor and map_color
     mc = prog.fn_by_path(PC + "binary_color::BinaryColor::map_color")
+    P0 = Paths(prog)
     table = {}
-    for lits, ret, _ in decisions(mc):
-        for d, lit in lits:
-            if d[0] == "discr" and len(lit) == 1:
-                table[{0: "Off", 1: "On"}.get(lit[0])] = ret
-    ok = table.get("Off") == ("param", 2, "value_off") and table.get("On") == ("param", 3, "value_on")
+    try:
+        for sm in P0.of(mc):
+            vs = [fct[2] for fct in sm.facts if fct[0] == "variant" and fct[1] == ("param", 1, "self")]
+            if len(vs) == 1 and len(vs[0]) == 1 and len(sm.facts) == 1:
+                table[vs[0][0]] = sm.ret
+            else:
+                table["?"] = sm.ret
+    except Unsupported:
+        pass
+    ok = table == {"Off": ("param", 2, "value_off"), "On": ("param", 3, "value_on")}
     rep.check(ok, "R13.4", "map_color", "map_color must return its first value for Off and its second for On; found %s" % {k: show(v) for k, v in table.items()}, at=mc.span, fn=mc.path)
     fb = [f for f in prog.fns.values() if f.name == "from" and f.impl and prog.impls[f.impl].get("trait") == "core::convert::From" and short(prog.impls[f.impl]["self_ty"]) == "BinaryColor"
           and ty_str(prog.impls[f.impl]["trait_args"][1]) == "bool"]
     if len(fb) == 1:
         t = {}
-        for lits, ret, _ in decisions(fb[0]):
-            for d, lit in lits:
-                if d == ("param", 1, "value") or d[0] == "param":
-                    tv = lit_truth(lit)
-                    if ret[0] == "agg":
-                        t[tv] = ret[1].split("::")[-1]
+        try:
+            for sm in P0.of(fb[0]):
+                vo = variant_of(sm.ret)
+                tv = [fct[0] for fct in sm.facts if fct[0] in ("true", "false") and fct[1] == ("param", 1, "value")]
+                t[tv[0] == "true" if len(tv) == 1 and len(sm.facts) == 1 else None] = vo[1] if vo else show(sm.ret, maxd=3)
+        except Unsupported:
+            pass
         rep.check(t == {True: "On", False: "Off"}, "R13.4", "bool->BinaryColor", "true must map to On and false to Off; found %s" % t, at=fb[0].span, fn=fb[0].path)
     else:
         rep.fail("R13.4", "bool->BinaryColor", "anchor lost (%d)" % len(fb), status="undecided")
@@ -212,31 +227,83 @@ def _const_int(prog, t):
     return None
 
 
+def _paths(prog):
+    if not hasattr(prog, "_c13_paths"):
+        prog._c13_paths = Paths(prog, inline=lambda g: prog.is_new(g) or g.path.endswith("BinaryColor::map_color") or ("From<bool>" in g.path and "BinaryColor" in g.path))
+    return prog._c13_paths
+
+
+def _cval(t):
+    if t[0] == "const" and isinstance(t[1], str) and t[1].startswith("val:"):
+        return unwrap(json.loads(t[1][4:]))
+    return None
+
+
 def check_to_binary(prog, rep, key, src, f, ro, gray):
-    ro = fold(ro)
+    """On exactly for the upper half: every path returning On has established threshold <= luma, every path
+    returning Off luma < threshold (path summaries; `>=`, `!(.. < ..)`, `if`/`match`/`.into()` spellings alike)."""
+    try:
+        summs = _paths(prog).of(f)
+    except Unsupported as e:
+        rep.fail("R13.4", key, "cannot summarise: %s" % e, status="undecided", at=f.span, fn=f.path)
+        return
+    color = ("param", 1, "color")
     if src in gray:
-        m = match(ro, ("call", "*::into", "_", (("bin", "Ge", ("call", "*::luma", "_", (("param", 1, "color"),)), "?thr"),)))
-        ok = m is not None
-        if ok:
-            thr = m["?thr"]
-            ok = thr[0] == "call" and thr[1].endswith("::luma") and any(n[0] == "const" and "GRAY_50" in str(n[1]) or (n[0] == "const" and str(n[1]).startswith("val:")) for n in walk(thr))
-        rep.check(ok, "R13.4", key, "gray->binary must be luma >= GRAY_50.luma(); found %s" % show(ro, maxd=6), at=f.span, fn=f.path)
+        def is_l(t):
+            return t[0] == "call" and t[1].endswith("::luma") and t[3] == (color,)
+
+        def is_thr(t):
+            if t[0] == "call" and t[1].endswith("::luma") and len(t[3]) == 1:
+                v = _cval(t[3][0])
+                return v is not None and v == gray[src].get("GRAY_50") or (t[3][0][0] == "const" and "GRAY_50" in str(t[3][0][1]))
+            return t == ("const", gray[src].get("GRAY_50"))
+        what = "gray->binary must be luma >= GRAY_50.luma()"
     else:
-        m = match(ro, ("call", "*::into", "_", (("bin", "Ge", ("call", "*conversion::luma", "_", ("?c",)), ("const", 128)),)))
-        ok = m is not None and m["?c"][0] == "call" and m["?c"][1].endswith("::from") and m["?c"][3] == (("param", 1, "color"),)
-        rep.check(ok, "R13.4", key, "rgb->binary must be luma(Rgb888::from(c)) >= 128 (the rounded luma, upper half of 0..=255); found %s" % show(ro, maxd=6), at=f.span, fn=f.path)
+        def is_l(t):
+            if not (t[0] == "call" and t[1].endswith("conversion::luma") and len(t[3]) == 1):
+                return False
+            c = t[3][0]
+            if src == "Rgb888" and c == color:
+                return True
+            return c[0] == "call" and c[1].endswith("::from") and "Rgb888" in c[1] and c[3] == (color,)
+
+        def is_thr(t):
+            return t == ("const", 128)
+        what = "rgb->binary must be luma(Rgb888::from(c)) >= 128 (the rounded luma, upper half of 0..=255)"
+    bad = []
+    seen = set()
+    for sm in summs:
+        vo = variant_of(sm.ret)
+        if vo is None or not vo[0].endswith("BinaryColor") or sm.effects:
+            bad.append("a path returns %s" % show(sm.ret, maxd=4))
+            continue
+        seen.add(vo[1])
+        fs = [tuple(fold(x) if isinstance(x, tuple) else x for x in fct) for fct in sm.facts]
+        if vo[1] == "On":
+            good = any((fct[0] == "le" and is_thr(fct[1]) and is_l(fct[2])) for fct in fs)
+        else:
+            good = any((fct[0] == "lt" and is_l(fct[1]) and is_thr(fct[2])) for fct in fs)
+        if not good or len(fs) != 1:
+            bad.append("%s is returned when %s" % (vo[1], "; ".join(show_fact(x) for x in sm.facts) or "always"))
+    rep.check(not bad and seen == {"On", "Off"}, "R13.4", key, what + "; " + "; ".join(bad[:2]), at=f.span, fn=f.path)
 
 
 def check_from_binary(prog, rep, key, dst, f, ro, rgb, gray):
-    m = match(ro, ("call", "*BinaryColor::map_color", "_", (("param", 1, "color"), "?off", "?on")))
-    ok = m is not None
-    if ok:
-        def val(t):
-            if t[0] == "const" and isinstance(t[1], str) and t[1].startswith("val:"):
-                return unwrap(json.loads(t[1][4:]))
-            return None
-        off, on = val(m["?off"]), val(m["?on"])
-        tbl = rgb if dst in rgb else gray
-        white, black = tbl[dst]["WHITE"], tbl[dst]["BLACK"]
-        ok = off == black and on == white and black == 0
-    rep.check(ok, "R13.4", key, "binary->%s must be map_color(BLACK, WHITE) (Off=black, On=white); found %s" % (dst, show(ro, maxd=4)), at=f.span, fn=f.path)
+    try:
+        summs = _paths(prog).of(f)
+    except Unsupported as e:
+        rep.fail("R13.4", key, "cannot summarise: %s" % e, status="undecided", at=f.span, fn=f.path)
+        return
+    tbl = rgb if dst in rgb else gray
+    white, black = tbl[dst]["WHITE"], tbl[dst]["BLACK"]
+    color = ("param", 1, "color")
+    got = {}
+    bad = []
+    for sm in summs:
+        vs = [fct[2] for fct in sm.facts if fct[0] == "variant" and fct[1] == color]
+        if len(vs) != 1 or len(vs[0]) != 1 or len(sm.facts) != 1 or sm.effects:
+            bad.append("a path is taken when %s" % ("; ".join(show_fact(x) for x in sm.facts) or "always"))
+            continue
+        got[vs[0][0]] = _cval(sm.ret)
+    ok = not bad and got == {"Off": black, "On": white} and black == 0
+    rep.check(ok, "R13.4", key, "binary->%s must map Off to BLACK and On to WHITE; found %s %s" % (dst, got, "; ".join(bad[:2])), at=f.span, fn=f.path)
